@@ -291,7 +291,10 @@ class Gen:
         r = self.r
         obs = [("index_valid",), ("iter",)]
         k = r.choice(["ooo_batch", "carriers", "bad_batch", "stale_handle", "torn_update", "handle_times", "linebreaks", "zones",
-                      "remove_first", "ooo_then_remove", "nested_not", "reset_then_time", "getter_memo", "handle_sorted"])
+                      "remove_first", "ooo_then_remove", "nested_not", "reset_then_time", "getter_memo", "handle_sorted", "odd_strings", "shared_maps"])
+        pref = self.profile.get("scenario_pref")
+        if pref and r.random() < 0.5:
+            k = r.choice(pref)
         ops = []
         if k == "ooo_batch":
             # one insert_multiple whose points go backwards inside the batch, then time queries straight away
@@ -431,6 +434,40 @@ class Gen:
             for p in pts:
                 p["tags"]["nl"] = r.choice(["a\nb", "c\r\nd", "e\rf"])
             ops += [("insert", pts, None, "multiple"), ("insert", [self.point(T0 - 9 * SEC)], None)] + obs + [("len",), ("all", False), ("len",)]
+        elif k == "shared_maps":
+            # a batch of points built from ONE tags mapping and ONE fields mapping (the harness hands equal mappings of a batch over as one
+            # object): updates of a subset, of all, unsets, and an update that fails part-way must treat every point as having its own
+            pts = self.points_batch(r.choice([3, 4, 5]), in_order=True)
+            tags, fields = {"site": r.choice(["a", "b"]), "k": "x"}, {"a": r.choice([1, 2]), "b": 1.5}
+            for p in pts:
+                p["tags"], p["fields"], p["meas"] = dict(tags), dict(fields), "m1"
+            ops += [("insert", pts, None, "multiple")] + obs
+            tq = ("S", "time", [], ("cmp", r.choice(["<=", "<", ">="]), ("t", pts[len(pts) // 2]["time"])))
+            ops += [("update", tq, {"tags": ("static", {"checked": "yes"})}, None)] + obs
+            ops += [("update_all", {"fields": ("call", r.choice([0, 2]))})] + obs
+            ops += [("update", tq, {"unset_tags": ["k"], "fields": ("static", {"c": 3})}, None)] + obs
+            ops += [("update_all", {"tags": ("static", {"z": "1"}), "time": ("call", 4)})] + obs      # fails part-way on some point
+            ops += [("update_all", {"tags": ("static", {"z": "1"}), "fields": ("call", r.choice([1, 3]))})] + obs
+            ops += [("update", tq, {"unset_fields": ["a"], "tags": ("call", r.choice([0, 2]))}, None)] + obs + self.battery()
+        elif k == "odd_strings":
+            # keys spelled like the key prefixes of the file format, strings with leading / trailing blanks and quote characters; written in both
+            # prefix styles, read back after a reopen, after a rewrite (update) and after another reopen
+            pts = self.points_batch(r.choice([3, 4]), in_order=True)
+            okeys = ["t_zone", "f_out", "_tag_a", "_field_b", "t", "f", "tt", "ft", "t_", "f_", " k", "k ", "_", "t_t_x", "_tag_t_y"]
+            ovals = [" x", "x ", " ", "  a  b ", "\tq", "'", "''", '"', "#c", " _none", "_none ", "t_v", "f_v", "=1", "\\"]
+            for p in pts:
+                for key in r.sample(okeys, r.choice([1, 2, 3])):
+                    p["tags"][key] = r.choice(ovals)
+                for key in r.sample(okeys, r.choice([1, 2])):
+                    p["fields"][key] = r.choice([1, 2.5, None, -3])
+                if r.random() < 0.4:
+                    p["meas"] = r.choice([" m1", "m1 ", "t_m", "f_m", "_tag_", "'m'"])
+            half = len(pts) // 2
+            ops += [("insert", pts[:half], None, "multiple"), ("insert", pts[half:], None, "multiple", "compact")] + self.file_obs() + obs
+            ops += [(("reopen", r.random() < 0.5) if csv else ("reindex",)), ("all", False), ("get_tag_keys", None), ("get_field_keys", None), ("get_measurements",)]
+            ops += [("update", ("S", "tags", [("k", r.choice(okeys))], ("exists",)), {"tags": ("static", {"t_new": " v"})}, None)] + self.file_obs() + obs
+            ops += [("update_all", {"fields": ("static", {"f_new": 7})})] + self.file_obs() + obs
+            ops += [(("reopen", r.random() < 0.5) if csv else ("reindex",)), ("all", False), ("get_tag_values", [], None), ("get_field_keys", None), ("iter",)]
         else:
             # the same instant handed in through different zones; callable producing a non-UTC datetime
             pts = self.points_batch(r.choice([3, 5]), in_order=True)
